@@ -10,7 +10,7 @@
 using namespace vp;
 
 enum { OP_LOAD_N, OP_LOAD_CT, OP_ALOAD_N, OP_ALOAD_CT, OP_STORE_N, OP_STORE_CT, OP_ASTORE_N, OP_ASTORE_CT,
-       OP_GATHER_N, OP_GATHER_CT, OP_SCATTER_N, OP_SCATTER_CT, OP_EXTRACT, OP_INSERT, OP_TO_ARRAY, OP_FROM_ARRAY, OP_GATHER_FAR, OP_SCATTER_FAR, OP_STORE_RACE, OP_COUNT };
+       OP_GATHER_N, OP_GATHER_CT, OP_SCATTER_N, OP_SCATTER_CT, OP_EXTRACT, OP_INSERT, OP_TO_ARRAY, OP_FROM_ARRAY, OP_GATHER_FAR, OP_SCATTER_FAR, OP_STORE_RACE, OP_TYPED_LOAD_N, OP_TYPED_LOAD_CT, OP_TYPED_STORE_N, OP_TYPED_STORE_CT, OP_COUNT };
 // v0 payload lanes (memory contents for loads / vector for stores), v1 indices; s0 = n, s1 = element offset, s2 = placement, s3 = inserted value / lane
 static const VpOp OPS[] = {
     {"load_n", {VK_INT}, {SK_N, SK_OFF, SK_SMALL}, 3}, {"load_ct", {VK_INT}, {SK_N, SK_OFF, SK_SMALL}, 2},
@@ -23,6 +23,10 @@ static const VpOp OPS[] = {
     {"gather_far_index", {VK_INT, VK_IDX}, {SK_N, SK_OFF, SK_SMALL}, 1}, {"scatter_far_index", {VK_INT, VK_IDX}, {SK_N, SK_OFF, SK_SMALL}, 1},
     // C09 only: a partial store repeated while a second thread owns (keeps rewriting and re-reading) the elements behind the addressed ones; s2 = form
     {"partial_store_beside_concurrent_writer", {VK_INT}, {SK_N, SK_OFF, SK_SMALL}, 1012},
+    // C08 only: the memory is written / read through ordinary lvalues of the element type right before and after the call, inside one function
+    // (fill a slot, load it, reuse the slot; store, then read the elements): what the optimiser may reorder if the library accesses the
+    // elements through an incompatible type
+    {"typed_fill_load_n_reuse", {VK_INT}, {SK_N}, 1}, {"typed_fill_load_ct_reuse", {VK_INT}, {SK_N}, 1}, {"store_n_then_typed_read", {VK_INT}, {SK_N}, 1}, {"store_ct_then_typed_read", {VK_INT}, {SK_N}, 1},
 };
 enum { CL_PARTIAL, CL_N_GT_W, CL_N_ZERO, CL_UNALIGNED, CL_NEG_INDEX, CL_FLUSH_END, CL_FLUSH_START, CL_WILD_INACTIVE, CL_PTR_IN_GUARD, CL_ORDINARY, CL_RACE };
 static const char* const CLASSES[] = {"partial_0_lt_n_lt_width", "n_greater_than_width", "n_zero", "unaligned_address", "negative_index",
@@ -177,11 +181,81 @@ template<class V> static void store_race(const VpCase* c, VpOutcome* o, unsigned
 }
 #endif
 
+#ifndef VP_PROP_C09
+template<class V> struct TypedSlot { alignas(64) static typename V::scalar slot[V::width + 8]; };
+template<class V> alignas(64) typename V::scalar TypedSlot<V>::slot[V::width + 8];
+template<class V> __attribute__((noinline)) static V typed_fill_load_reuse(typename V::scalar* slot, unsigned n, const typename V::scalar* vals) {
+    typedef typename V::scalar T;
+    for (unsigned i = 0; i < V::width; ++i) slot[i] = vals[i];
+    V v = avel::load<V>(slot, n);
+    for (unsigned i = 0; i < V::width; ++i) slot[i] = T(77);
+    return v;
+}
+template<class V> struct TypedLoadCt {
+    typename V::scalar* slot; const typename V::scalar* vals; V r;
+    template<unsigned I> __attribute__((noinline)) void at() {
+        typedef typename V::scalar T;
+        for (unsigned i = 0; i < V::width; ++i) slot[i] = vals[i];
+        r = avel::load<V, I>(slot);
+        for (unsigned i = 0; i < V::width; ++i) slot[i] = T(77);
+    }
+};
+template<class V> __attribute__((noinline)) static void store_then_typed_read(typename V::scalar* slot, const V& v, unsigned n, typename V::scalar* out) {
+    typedef typename V::scalar T;
+    for (unsigned i = 0; i < V::width; ++i) slot[i] = T(55);
+    avel::store(slot, v, n);
+    for (unsigned i = 0; i < V::width; ++i) out[i] = slot[i];
+}
+template<class V> struct TypedStoreCt {
+    typename V::scalar* slot; V v; typename V::scalar* out;
+    template<unsigned I> __attribute__((noinline)) void at() {
+        typedef typename V::scalar T;
+        for (unsigned i = 0; i < V::width; ++i) slot[i] = T(55);
+        avel::store<I>(slot, v);
+        for (unsigned i = 0; i < V::width; ++i) out[i] = slot[i];
+    }
+};
+template<class V> static void typed_ops(const VpCase* c, VpOutcome* o) {
+    typedef typename V::scalar T;
+    const unsigned W = V::width; const uint64_t m = elem<T>::mask();
+    const unsigned op = c->op;
+    const bool ct = op == OP_TYPED_LOAD_CT || op == OP_TYPED_STORE_CT;
+    unsigned n = (unsigned)(c->s[0] < 0 ? -c->s[0] : c->s[0]) % (W + 3); if (ct && n > W) n = W;
+    const unsigned cnt = n < W ? n : W;
+    uint64_t lanes[VP_MAXL], got[VP_MAXL], exp[VP_MAXL]; T vals[VP_MAXL], out[VP_MAXL];
+    for (unsigned i = 0; i < W; ++i) { lanes[i] = c->v[0][i] & m; vals[i] = elem<T>::from_bits(lanes[i]); }
+    if (n > 0 && n < W) { o->classes |= 1u << CL_PARTIAL; o->nontrivial = 1; } else if (n > W) { o->classes |= 1u << CL_N_GT_W; o->nontrivial = 1; } else if (n == 0) { o->classes |= 1u << CL_N_ZERO; o->nontrivial = 1; } else o->classes |= 1u << CL_ORDINARY;
+    T* slot = TypedSlot<V>::slot;
+    if (op == OP_TYPED_LOAD_N || op == OP_TYPED_LOAD_CT) {
+        V r;
+        if (op == OP_TYPED_LOAD_N) r = typed_fill_load_reuse<V>(slot, n, vals);
+        else { TypedLoadCt<V> f; f.slot = slot; f.vals = vals; dispatch<W + 1>::go(n, f); r = f.r; }
+        rd<V>(r, got);
+        for (unsigned i = 0; i < W; ++i) exp[i] = i < cnt ? lanes[i] : 0;
+        cmp_lanes(o, W, exp, got, nullptr, "typed_fill_load_reuse", OPS[op].name);
+    } else {
+        V v = mk<V>(lanes);
+        if (op == OP_TYPED_STORE_N) store_then_typed_read<V>(slot, v, n, out);
+        else { TypedStoreCt<V> f; f.slot = slot; f.v = v; f.out = out; dispatch<W + 1>::go(n, f); }
+        for (unsigned i = 0; i < W; ++i) { got[i] = elem<T>::to_bits(out[i]); exp[i] = i < cnt ? lanes[i] : elem<T>::to_bits(T(55)); }
+        cmp_lanes(o, W, exp, got, nullptr, "store_then_typed_read", OPS[op].name);
+    }
+}
+#endif
+
 template<class V> static void run(const VpCase* c, VpOutcome* o) {
     typedef typename V::scalar T;
     const unsigned W = V::width, ES = sizeof(T);
     const uint64_t m = elem<T>::mask();
     arena_init();
+    if (c->op >= OP_TYPED_LOAD_N) {
+#ifndef VP_PROP_C09
+        typed_ops<V>(c, o);
+#else
+        o->status = 2;
+#endif
+        return;
+    }
     if (c->op == OP_STORE_RACE) {
 #ifdef VP_PROP_C09
         store_race<V>(c, o, (unsigned)(c->s[0] < 0 ? -c->s[0] : c->s[0]));
@@ -439,6 +513,12 @@ extern "C" void vp_enum(int tier, uint64_t seed, uint32_t shard, uint32_t nshard
             if (op == OP_GATHER_FAR || op == OP_SCATTER_FAR) {
                 if (B != 64) continue;
                 for (unsigned n = 0; n <= W + 1; ++n) for (unsigned v = 0; v < 8; ++v) { c.s[0] = n; c.s[1] = v; emit(&c, ctx); }
+                continue;
+            }
+            if (op >= OP_TYPED_LOAD_N) {
+#ifndef VP_PROP_C09
+                for (unsigned n = 0; n <= W + 2; ++n) for (unsigned rep = 0; rep < 3; ++rep) { c.s[0] = n; for (unsigned i = 0; i < W; ++i) c.v[0][i] = (c.v[0][i] * 0x9E3779B97F4A7C15ull + rep + n) & m; emit(&c, ctx); }
+#endif
                 continue;
             }
             if (op == OP_STORE_RACE) {
